@@ -11,7 +11,7 @@ EXTENDS Core, FsModel
 ReadOnlyCmds == {"recheck", "info", "magnet"}
 AllowedOp(cmd, op) ==
     CASE cmd \in ReadOnlyCmds -> FALSE
-      [] cmd = "create" -> op.p \in {"O", "probe"} /\ op.kind \in {"open_trunc", "open_append", "write", "close", "remove"}
+      [] cmd = "create" -> op.p \in {"O", "probe"} /\ op.kind \in {"open_trunc", "open_append", "open_create", "write", "close", "remove"}
       [] cmd = "rename" -> op.kind = "rename" /\ op.p = "M" /\ op.p2 = "N"
       [] OTHER -> FALSE
 PolicyOK(cmd, ops) == \A k \in DOMAIN ops : AllowedOp(cmd, ops[k])
